@@ -151,7 +151,7 @@ def go_build(moddir, out, overlay=None, tags="verif", race=False, pkg="."):
     return out
 
 
-def run_shards(binary, gen, tier, nshards, outdir, extra_args=(), deadline=0, env=None, tag=""):
+def run_shards(binary, gen, tier, nshards, outdir, extra_args=(), deadline=0, env=None, tag="", env_fn=None):
     """Run `binary` as nshards processes; returns list of parsed reports."""
     os.makedirs(outdir, exist_ok=True)
     e = goenv()
@@ -166,7 +166,11 @@ def run_shards(binary, gen, tier, nshards, outdir, extra_args=(), deadline=0, en
         if deadline:
             cmd += ["-deadline", str(deadline)]
         cmd += list(extra_args)
-        p = subprocess.run(cmd, env=e, stdout=subprocess.PIPE, stderr=subprocess.STDOUT, text=True)
+        ei = e
+        if env_fn:
+            ei = dict(e)
+            ei.update(env_fn(i))
+        p = subprocess.run(cmd, env=ei, stdout=subprocess.PIPE, stderr=subprocess.STDOUT, text=True)
         if p.returncode != 0 or not os.path.exists(out):
             raise Internal("harness shard %d failed (exit %d):\n%s" % (i, p.returncode, p.stdout[-8000:]))
         return json.load(open(out))
